@@ -306,7 +306,17 @@ func (n *c20Notifier) RegisterBlockEpochNtfn(*chainntnfs.BlockEpoch) (*chainntnf
 	defer n.mu.Unlock()
 	c := make(chan *chainntnfs.BlockEpoch, 8)
 	n.clients = append(n.clients, c)
-	return &chainntnfs.BlockEpochEvent{Epochs: c, Cancel: func() {}}, nil
+	cancel := func() {
+		n.mu.Lock()
+		defer n.mu.Unlock()
+		for i, x := range n.clients {
+			if x == c {
+				n.clients = append(n.clients[:i:i], n.clients[i+1:]...)
+				break
+			}
+		}
+	}
+	return &chainntnfs.BlockEpochEvent{Epochs: c, Cancel: cancel}, nil
 }
 func (n *c20Notifier) Start() error  { return nil }
 func (n *c20Notifier) Started() bool { return true }
@@ -404,8 +414,18 @@ const (
 	// so virtual time can never advance to fire the timer. An interval of 0 (what
 	// the repo's own test stores use) keeps the timer-driven path (time.AfterFunc)
 	// but needs no clock advance.
-	c20BatchCommit = 0 * time.Millisecond
+	c20BatchCommit  = 0 * time.Millisecond
 	c20TrickleDelay = 2 * time.Second
+	// c20PruneInterval is the Builder's GraphPruneInterval (lnd's production value).
+	// The zombie-prune ticker is the only way a Builder without AssumeChannelValid
+	// prunes zombies; the "prune" event advances the virtual clock by exactly one
+	// interval. Message steps take c20StepSleep each, so fewer than
+	// c20PruneInterval/c20StepSleep = 180 of them never reach a tick on their own:
+	// a tick falls inside a "prune" event and nowhere else (the ticker restarts with
+	// the Builder on a "restart" event).
+	c20PruneInterval = time.Hour
+	// c20PruneExpiry is lnd's two-week zombie horizon (graph.DefaultChannelPruneExpiry).
+	c20PruneExpiry = 14 * 24 * time.Hour
 )
 
 type c20Cfg struct {
@@ -413,6 +433,17 @@ type c20Cfg struct {
 	// SamePeer: every message is delivered by one and the same peer (reject cache
 	// and ban score in play). Otherwise step i is delivered by the fresh peer i.
 	SamePeer bool `json:"same_peer,omitempty"`
+	// Strict: graph.Config.StrictZombiePruning (lnd's routing.strictgraphpruning).
+	Strict bool `json:"strict_zombie_pruning,omitempty"`
+	// CacheSize: entries of the store's reject cache and channel cache (0: 256).
+	// With 1 every lookup of another scid evicts the entry (eviction is random in
+	// lnd, so only size 1 is deterministic).
+	CacheSize int `json:"cache_size,omitempty"`
+	// LazyViews: the observation after a step only iterates the store; it performs
+	// no pointed lookups, so the store's reject/channel caches are touched by the
+	// gossip path alone (after a restart the first lookup of a channel is the one
+	// made for a gossip message, not the observer's).
+	LazyViews bool `json:"lazy_views,omitempty"`
 }
 
 // c20Obs is what one step let us observe.
@@ -420,13 +451,14 @@ type c20Obs struct {
 	Verdict   string   // "ok" | "pending" | "err: ..."
 	Broadcast [][]byte // wire encodings handed to Config.Broadcast during the step
 	Graph     []string // canonical routable graph after the step
-	Zombies   []uint64 // zombie index restricted to the universe's scids (not an oracle input)
+	Zombies   []uint64 // zombie index restricted to the universe's scids
+	ZombieKey []string // the node keys stored with each zombie entry (reporting only, never an oracle input)
 	CacheDiff string   // disagreement between the DB view and the pathfinding cache, if any
 	Now       int64    // virtual unix time at which the message was injected
 }
 
 type c20Req struct {
-	kind  string // "msg" | "burst" | "blk" | "close"
+	kind  string // "msg" | "burst" | "blk" | "restart" | "prune" | "close"
 	msg   lnwire.Message
 	msgs  []lnwire.Message
 	peer  int
@@ -457,7 +489,9 @@ type c20Inner struct {
 	v1       *graphdb.VersionedGraph
 	builder  *graph.Builder
 	goss     *AuthenticatedGossiper
-	closers  []func()
+	closers  []func() // stop the running stack and close the database handle (restart + teardown)
+	rmDir    func()   // remove the scratch directory (teardown only)
+	opens    int      // how many times the stack was started on this database
 
 	bmu   sync.Mutex
 	bcast [][]byte
@@ -532,19 +566,43 @@ func (in *c20Inner) setup() error {
 		return err
 	}
 	in.dir = dir
-	in.closers = append(in.closers, func() { _ = os.RemoveAll(dir) })
-
-	var store graphdb.Store
-	switch in.cfg.Backend {
-	case "sql":
+	in.rmDir = func() { _ = os.RemoveAll(dir) }
+	if in.cfg.Backend == "sql" {
 		tpl, err := c20SQLTemplate()
 		if err != nil {
 			return err
 		}
-		p := filepath.Join(dir, "graph.db")
-		if err := os.WriteFile(p, tpl, 0o600); err != nil {
+		if err := os.WriteFile(filepath.Join(dir, "graph.db"), tpl, 0o600); err != nil {
 			return err
 		}
+	}
+	in.chain = &c20Chain{u: c20U}
+	in.chain.tip.Store(c20TipStart)
+	in.notifier = &c20Notifier{}
+	if err := in.open(); err != nil {
+		return err
+	}
+	in.takeBroadcast()
+	return nil
+}
+
+// open starts one "process lifetime" of lnd's gossip intake on the database in
+// in.dir: graph store (all in-memory caches empty), ChannelGraph, Builder,
+// gossiper. Called once by setup and again by every "restart" event; the chain
+// (and its tip) is the environment and survives.
+func (in *c20Inner) open() error {
+	dir := in.dir
+	cacheSize := 256
+	if in.cfg.CacheSize > 0 {
+		cacheSize = in.cfg.CacheSize
+	}
+	var (
+		store graphdb.Store
+		err   error
+	)
+	switch in.cfg.Backend {
+	case "sql":
+		p := filepath.Join(dir, "graph.db")
 		st, err := sqldb.NewSqliteStore(&sqldb.SqliteConfig{SkipMigrations: true}, p)
 		if err != nil {
 			return err
@@ -559,11 +617,12 @@ func (in *c20Inner) setup() error {
 		}, exec, graphdb.WithBatchCommitInterval(c20BatchCommit),
 			// the defaults pre-allocate ~15 MB per store (50k-entry reject cache,
 			// 15k-node graph cache); thousands of short-lived worlds do not need that
-			graphdb.WithRejectCacheSize(256), graphdb.WithChannelCacheSize(256))
+			graphdb.WithRejectCacheSize(cacheSize), graphdb.WithChannelCacheSize(cacheSize))
 		if err != nil {
 			return err
 		}
 	default:
+		// creates the bbolt file the first time, opens the existing one afterwards
 		backend, cleanup, err := kvdb.GetTestBackend(dir, "cgr")
 		if err != nil {
 			return err
@@ -572,7 +631,7 @@ func (in *c20Inner) setup() error {
 		// or every world leaks an mmap of its deleted file)
 		in.closers = append(in.closers, cleanup, func() { _ = backend.Close() })
 		store, err = graphdb.NewKVStore(backend, graphdb.WithBatchCommitInterval(c20BatchCommit),
-			graphdb.WithRejectCacheSize(256), graphdb.WithChannelCacheSize(256))
+			graphdb.WithRejectCacheSize(cacheSize), graphdb.WithChannelCacheSize(cacheSize))
 		if err != nil {
 			return err
 		}
@@ -583,7 +642,7 @@ func (in *c20Inner) setup() error {
 		return err
 	}
 	if err := gdb.Start(); err != nil {
-		return err
+		return fmt.Errorf("graph start: %w", err)
 	}
 	in.gdb = gdb
 	in.v1 = graphdb.NewVersionedGraph(gdb, lnwire.GossipVersion1)
@@ -591,6 +650,7 @@ func (in *c20Inner) setup() error {
 
 	ctx := context.Background()
 	selfPub := c20Pub(c20Self)
+	// (lnd writes its source node at every start as well)
 	if err := gdb.SetSourceNode(ctx, models.NewV1Node(selfPub, &models.NodeV1Fields{
 		LastUpdate: time.Unix(c20Epoch-5000, 0), Alias: "self",
 		Features: lnwire.NewRawFeatureVector(),
@@ -600,9 +660,6 @@ func (in *c20Inner) setup() error {
 		return fmt.Errorf("source node: %w", err)
 	}
 
-	in.chain = &c20Chain{u: c20U}
-	in.chain.tip.Store(c20TipStart)
-	in.notifier = &c20Notifier{}
 	noAlias := func(lnwire.ShortChannelID) bool { return false }
 
 	in.builder, err = graph.NewBuilder(&graph.Config{
@@ -612,8 +669,9 @@ func (in *c20Inner) setup() error {
 		ChainView:           &c20ChainView{nb: make(chan *chainview.FilteredBlock), sb: make(chan *chainview.FilteredBlock)},
 		Notifier:            in.notifier,
 		ChannelPruneExpiry:  graph.DefaultChannelPruneExpiry,
-		GraphPruneInterval:  time.Hour,
+		GraphPruneInterval:  c20PruneInterval,
 		FirstTimePruneDelay: graph.DefaultFirstTimePruneDelay,
+		StrictZombiePruning: in.cfg.Strict,
 		IsAlias:             noAlias,
 	})
 	if err != nil {
@@ -622,7 +680,8 @@ func (in *c20Inner) setup() error {
 	if err := in.builder.Start(); err != nil {
 		return fmt.Errorf("builder start: %w", err)
 	}
-	in.closers = append(in.closers, func() { _ = in.builder.Stop() })
+	builder := in.builder
+	in.closers = append(in.closers, func() { _ = builder.Stop() })
 
 	selfAnn := lnwire.NodeAnnouncement1{Timestamp: uint32(c20Epoch - 5000), NodeID: selfPub, Features: lnwire.NewRawFeatureVector()}
 	in.goss = New(Config{
@@ -680,18 +739,21 @@ func (in *c20Inner) setup() error {
 	if err := in.goss.Start(); err != nil {
 		return fmt.Errorf("gossiper start: %w", err)
 	}
-	in.closers = append(in.closers, func() { _ = in.goss.Stop() })
+	goss := in.goss
+	in.closers = append(in.closers, func() { _ = goss.Stop() })
 	// as the repo's own fixture does: messages received while the initial graph
 	// sync is still running are never broadcast
 	in.goss.syncMgr.markGraphSynced()
+	in.opens++
 
 	time.Sleep(c20StepSleep)
 	synctest.Wait()
-	in.takeBroadcast()
 	return nil
 }
 
-func (in *c20Inner) teardown() {
+// shutdown stops the running stack (gossiper, builder, graph) and closes the
+// database handle; the files stay.
+func (in *c20Inner) shutdown() {
 	for i := len(in.closers) - 1; i >= 0; i-- {
 		func() {
 			defer func() { _ = recover() }()
@@ -699,6 +761,14 @@ func (in *c20Inner) teardown() {
 		}()
 	}
 	in.closers = nil
+}
+
+func (in *c20Inner) teardown() {
+	in.shutdown()
+	if in.rmDir != nil {
+		in.rmDir()
+		in.rmDir = nil
+	}
 }
 
 func (in *c20Inner) takeBroadcast() [][]byte {
@@ -719,6 +789,39 @@ func (in *c20Inner) step(req c20Req) *c20Obs {
 		obs.Verdict = "ok"
 		time.Sleep(c20StepSleep)
 		synctest.Wait()
+	case "prune":
+		// one tick of the Builder's zombie-prune ticker (see c20PruneInterval)
+		time.Sleep(c20PruneInterval)
+		synctest.Wait()
+		obs.Verdict = "ok"
+	case "restart":
+		// lnd is stopped and started again on the same database: every in-memory
+		// structure (the store's reject and channel caches, the graph cache, the
+		// gossiper's premature-update and future-message caches, recent rejects,
+		// ban scores, rate limiters) starts empty
+		in.shutdown()
+		synctest.Wait()
+		obs.Verdict = "ok"
+		var err error
+		func() {
+			defer func() {
+				if r := recover(); r != nil {
+					err = fmt.Errorf("panic: %v", r)
+				}
+			}()
+			err = in.open()
+		}()
+		if err != nil {
+			in.shutdown()
+			obs.Verdict = "err: restart failed: " + err.Error()
+			obs.Graph = []string{"ERR restart: " + err.Error()}
+			return obs
+		}
+		obs.Broadcast = in.takeBroadcast()
+		// never pointed lookups in the restart step itself: the first lookup of a
+		// channel after a restart is to be made by a gossip message
+		obs.Graph, obs.Zombies, obs.ZombieKey, obs.CacheDiff = in.observe(true)
+		return obs
 	default:
 		msgs := req.msgs
 		if req.kind == "msg" {
@@ -754,7 +857,7 @@ func (in *c20Inner) step(req c20Req) *c20Obs {
 		obs.Verdict = strings.Join(verdicts, " & ")
 	}
 	obs.Broadcast = in.takeBroadcast()
-	obs.Graph, obs.Zombies, obs.CacheDiff = in.observe()
+	obs.Graph, obs.Zombies, obs.ZombieKey, obs.CacheDiff = in.observe(in.cfg.LazyViews)
 	return obs
 }
 
@@ -820,7 +923,7 @@ func c20NodeLine(n *models.Node) string {
 
 var c20UniverseScids = []lnwire.ShortChannelID{c20ScidGood, c20ScidSpent, c20ScidScript, c20ScidTiny, c20ScidNoOut, c20ScidNoTx, c20ScidFuture}
 
-func (in *c20Inner) observe() (lines []string, zombies []uint64, cacheDiff string) {
+func (in *c20Inner) observe(lazy bool) (lines []string, zombies []uint64, zombieKeys []string, cacheDiff string) {
 	ctx := context.Background()
 	type dirKey struct {
 		scid uint64
@@ -866,9 +969,14 @@ func (in *c20Inner) observe() (lines []string, zombies []uint64, cacheDiff strin
 	// pointed lookups (these go through the store's reject / channel caches) must
 	// tell the same story as the iteration
 	var diffs []string
+	inGraph := map[uint64]bool{}
 	for _, l := range lines {
 		var id uint64
 		if _, err := fmt.Sscanf(l, "ch %d ", &id); err != nil {
+			continue
+		}
+		inGraph[id] = true
+		if lazy {
 			continue
 		}
 		info, p1, p2, err := in.gdb.FetchChannelEdgesByID(ctx, id)
@@ -934,15 +1042,47 @@ func (in *c20Inner) observe() (lines []string, zombies []uint64, cacheDiff strin
 			diffs = append(diffs, fmt.Sprintf("store has channel %d at node %x, the cache does not", k.scid, k.from[:6]))
 		}
 	}
-	sort.Strings(diffs)
-	cacheDiff = strings.Join(diffs, "; ")
 
 	for _, s := range c20UniverseScids {
-		if z, _, _, _ := in.v1.IsZombieEdge(ctx, s.ToUint64()); z {
+		z, k1, k2, zerr := in.v1.IsZombieEdge(ctx, s.ToUint64())
+		if zerr != nil {
+			diffs = append(diffs, fmt.Sprintf("IsZombieEdge(%d): %v", s.ToUint64(), zerr))
+		}
+		if z {
 			zombies = append(zombies, s.ToUint64())
+			zombieKeys = append(zombieKeys, fmt.Sprintf("%d:[%s,%s]", s.ToUint64(), c20KeyName(k1), c20KeyName(k2)))
+		}
+		if z && inGraph[s.ToUint64()] {
+			diffs = append(diffs, fmt.Sprintf("channel %d is in the graph and in the zombie index", s.ToUint64()))
+		}
+		if lazy || inGraph[s.ToUint64()] || zerr != nil {
+			continue
+		}
+		// the pointed lookup the gossiper uses (reject cache) must tell the same
+		// story as the zombie index on disk
+		_, _, exists, zombie, err := in.gdb.HasV1ChannelEdge(ctx, s.ToUint64())
+		if err != nil || exists || zombie != z {
+			diffs = append(diffs, fmt.Sprintf("HasV1ChannelEdge(%d) = (exists=%v,zombie=%v,%v), the store has no such channel, zombie index: %v", s.ToUint64(), exists, zombie, err, z))
 		}
 	}
-	return lines, zombies, cacheDiff
+	sort.Strings(diffs)
+	cacheDiff = strings.Join(diffs, "; ")
+	return lines, zombies, zombieKeys, cacheDiff
+}
+
+// c20KeyName names a node key stored in the zombie index (reporting only).
+func c20KeyName(k [33]byte) string {
+	switch k {
+	case [33]byte{}:
+		return "blank"
+	case c20Pub(c20Node1):
+		return "node_1"
+	case c20Pub(c20Node2):
+		return "node_2"
+	case c20Pub(c20Evil):
+		return "evil"
+	}
+	return fmt.Sprintf("%x", k[:6])
 }
 
 // ---------------------------------------------------------------------------
@@ -998,6 +1138,12 @@ func (w *c20World) DeliverBurst(msgs []lnwire.Message, peer int) (*c20Obs, error
 
 // Block connects the next block of the universe.
 func (w *c20World) Block() (*c20Obs, error) { return w.call(c20Req{kind: "blk"}) }
+
+// Restart stops lnd's gossip intake and starts it again on the same database.
+func (w *c20World) Restart() (*c20Obs, error) { return w.call(c20Req{kind: "restart"}) }
+
+// Prune lets one tick of the Builder's zombie-prune ticker pass.
+func (w *c20World) Prune() (*c20Obs, error) { return w.call(c20Req{kind: "prune"}) }
 
 func (w *c20World) Close() {
 	if w.closed {
